@@ -12,9 +12,21 @@
    [spaced snap xs] = consecutive nodes more than 2*snap apart (strictly increasing).
    NOT proved (DESIGN 10): floating-point accuracy of the f64 instance (tied bit-for-bit to the
    implementation and searched on every check), number formatting (abstract: parse (fmt x) = x). *)
-From Coq Require Import List Arith Bool Reals.
-From OV Require Import Base.Panic Base.Arith Model.Vector Model.Matrix Model.Mesh Inst.QcInst.
-From OV Require Import Proofs.MeshBase Proofs.MeshStore Proofs.MeshQuad Proofs.MeshInterp Proofs.MeshIO.
+From Coq Require Import List Arith Bool Reals Lra.
+From OV Require Import Base.Panic.
+From OV Require Import Base.Arith.
+From OV Require Import Model.Vector.
+From OV Require Import Model.Matrix.
+From OV Require Import Model.Mesh.
+From OV Require Import Inst.QcInst.
+From OV Require Import Proofs.MeshBase.
+From OV Require Import Proofs.MeshStore.
+From OV Require Import Proofs.MeshQuad.
+From OV Require Import Proofs.MeshInterp.
+From OV Require Import Proofs.MeshIO.
+From OV Require Import Proofs.MeshInterp2.
+From OV Require Import Proofs.MeshQuad2.
+From OV Require Import Proofs.MeshIO2.
 Import ListNotations.
 
 (* a 3 x 2 grid with 2 variables per node, over the rationals, coordinates in nat *)
@@ -407,3 +419,189 @@ Check output2_layout : forall (A : Arith) (tok : Type) (fmt : A -> tok) (m : mes
 Print Assumptions output2_layout.
 Example output2_layout_nonvacuous : wf2 (mesh2_new (A:=AQ) [q 0 1; q 1 1; q 3 1] [q 0 1; q 2 1] 2).
 Proof. apply mesh2_new_wf. Qed.
+
+(* ------------------------------------------------------------------ P3: the interpolation loop, completely *)
+(* cellv m k x = the line of cell k evaluated at x (MeshInterp.v).  Inside the snapping window of a node
+   the line of the cell to its right is used (cells k-1 and k both match; the later one overwrites), at the
+   last node the line of the last cell; outside the grid the zero-initialised result is returned. *)
+
+Theorem interp_near_node : forall (m : mesh1 AR R) k (x : R),
+  wf1 m -> spaced snapR (m1_nodes m) -> 2 <= length (m1_nodes m) -> k < length (m1_nodes m) ->
+  (Rabs (x - nth k (m1_nodes m) 0) < snapR)%R ->
+  @interp1 AR snapR m x = Ok (cellv m (Nat.min k (length (m1_nodes m) - 2)) x).
+Proof. intros m k x. exact (MeshInterp2.interp_near_node m snapR k x snapR_pos). Qed.
+Check interp_near_node : forall (m : mesh1 AR R) k (x : R),
+  wf1 m -> spaced snapR (m1_nodes m) -> 2 <= length (m1_nodes m) -> k < length (m1_nodes m) ->
+  (Rabs (x - nth k (m1_nodes m) 0) < snapR)%R ->
+  @interp1 AR snapR m x = Ok (cellv m (Nat.min k (length (m1_nodes m) - 2)) x).
+Print Assumptions interp_near_node.
+Print Assumptions ex_m2_wf. (* closed; separator for the driver's parser *)
+Example interp_near_node_nonvacuous :
+  wf1 ex_imesh /\ spaced snapR (m1_nodes ex_imesh) /\ 2 <= length (m1_nodes ex_imesh) /\ 1 < length (m1_nodes ex_imesh) /\
+  (Rabs (1 - nth 1 (m1_nodes ex_imesh) 0) < snapR)%R.
+Proof.
+  destruct MeshInterp.interp_at_node_nonvacuous as (Hs & Hwf & Hn & Hsp & Hk & _).
+  split; [exact Hwf|]. split; [exact Hsp|]. split; [exact Hn|]. split; [exact Hk|].
+  unfold ex_imesh; cbn [m1_nodes nth]. apply Rabs_def1; lra.
+Qed.
+
+Theorem interp_near_node_bound : forall (m : mesh1 AR R) k (x : R) c,
+  wf1 m -> spaced snapR (m1_nodes m) -> 2 <= length (m1_nodes m) -> k < length (m1_nodes m) ->
+  (Rabs (x - nth k (m1_nodes m) 0) < snapR)%R -> c < m1_nvars m ->
+  let k' := Nat.min k (length (m1_nodes m) - 2) in
+  let slope := ((nth c (nth (k' + 1) (m1_vars m) []) 0 - nth c (nth k' (m1_vars m) []) 0) /
+                (nth (k' + 1) (m1_nodes m) 0 - nth k' (m1_nodes m) 0))%R in
+  exists r, @interp1 AR snapR m x = Ok r /\
+            (Rabs (nth c r 0 - nth c (nth k (m1_vars m) []) 0) <= Rabs slope * snapR)%R.
+Proof. intros m k x c. exact (MeshInterp2.interp_near_node_bound m snapR k x c snapR_pos). Qed.
+Check interp_near_node_bound : forall (m : mesh1 AR R) k (x : R) c,
+  wf1 m -> spaced snapR (m1_nodes m) -> 2 <= length (m1_nodes m) -> k < length (m1_nodes m) ->
+  (Rabs (x - nth k (m1_nodes m) 0) < snapR)%R -> c < m1_nvars m ->
+  let k' := Nat.min k (length (m1_nodes m) - 2) in
+  let slope := ((nth c (nth (k' + 1) (m1_vars m) []) 0 - nth c (nth k' (m1_vars m) []) 0) /
+                (nth (k' + 1) (m1_nodes m) 0 - nth k' (m1_nodes m) 0))%R in
+  exists r, @interp1 AR snapR m x = Ok r /\
+            (Rabs (nth c r 0 - nth c (nth k (m1_vars m) []) 0) <= Rabs slope * snapR)%R.
+Print Assumptions interp_near_node_bound.
+Print Assumptions ex_m2_wf. (* closed; separator for the driver's parser *)
+
+Theorem interp_outside_left : forall (m : mesh1 AR R) (x : R),
+  spaced snapR (m1_nodes m) -> 1 <= length (m1_nodes m) -> (x + snapR <= nth 0 (m1_nodes m) 0)%R ->
+  @interp1 AR snapR m x = Ok (repeat 0%R (m1_nvars m)).
+Proof. intros m x. exact (MeshInterp2.interp_outside_left m snapR x snapR_pos). Qed.
+Check interp_outside_left : forall (m : mesh1 AR R) (x : R),
+  spaced snapR (m1_nodes m) -> 1 <= length (m1_nodes m) -> (x + snapR <= nth 0 (m1_nodes m) 0)%R ->
+  @interp1 AR snapR m x = Ok (repeat 0%R (m1_nvars m)).
+Print Assumptions interp_outside_left.
+Print Assumptions ex_m2_wf. (* closed; separator for the driver's parser *)
+Example interp_outside_left_nonvacuous :
+  spaced snapR (m1_nodes ex_imesh) /\ 1 <= length (m1_nodes ex_imesh) /\ (-1 + snapR <= nth 0 (m1_nodes ex_imesh) 0)%R.
+Proof.
+  destruct MeshInterp.interp_at_node_nonvacuous as (Hs & Hwf & Hn & Hsp & Hk & _).
+  split; [exact Hsp|]. split; [cbn; auto|]. unfold ex_imesh; cbn [m1_nodes nth length Nat.sub]. unfold snapR in *; cbn in *; lra.
+Qed.
+
+Theorem interp_outside_right : forall (m : mesh1 AR R) (x : R),
+  spaced snapR (m1_nodes m) -> 1 <= length (m1_nodes m) ->
+  (nth (length (m1_nodes m) - 1) (m1_nodes m) 0 + snapR <= x)%R ->
+  @interp1 AR snapR m x = Ok (repeat 0%R (m1_nvars m)).
+Proof. intros m x. exact (MeshInterp2.interp_outside_right m snapR x snapR_pos). Qed.
+Check interp_outside_right : forall (m : mesh1 AR R) (x : R),
+  spaced snapR (m1_nodes m) -> 1 <= length (m1_nodes m) ->
+  (nth (length (m1_nodes m) - 1) (m1_nodes m) 0 + snapR <= x)%R ->
+  @interp1 AR snapR m x = Ok (repeat 0%R (m1_nvars m)).
+Print Assumptions interp_outside_right.
+Print Assumptions ex_m2_wf. (* closed; separator for the driver's parser *)
+Example interp_outside_right_nonvacuous :
+  spaced snapR (m1_nodes ex_imesh) /\ 1 <= length (m1_nodes ex_imesh) /\
+  (nth (length (m1_nodes ex_imesh) - 1) (m1_nodes ex_imesh) 0 + snapR <= 5)%R.
+Proof.
+  destruct MeshInterp.interp_at_node_nonvacuous as (Hs & Hwf & Hn & Hsp & Hk & _).
+  split; [exact Hsp|]. split; [cbn; auto|]. unfold ex_imesh; cbn [m1_nodes nth length Nat.sub]. unfold snapR in *; cbn in *; lra.
+Qed.
+
+Theorem interp_total : forall (m : mesh1 AR R) (x : R),
+  wf1 m -> spaced snapR (m1_nodes m) -> 2 <= length (m1_nodes m) ->
+  ((x + snapR <= nth 0 (m1_nodes m) 0)%R /\ @interp1 AR snapR m x = Ok (repeat 0%R (m1_nvars m))) \/
+  ((nth (length (m1_nodes m) - 1) (m1_nodes m) 0 + snapR <= x)%R /\ @interp1 AR snapR m x = Ok (repeat 0%R (m1_nvars m))) \/
+  (exists k, k < length (m1_nodes m) /\ (Rabs (x - nth k (m1_nodes m) 0) < snapR)%R /\
+             @interp1 AR snapR m x = Ok (cellv m (Nat.min k (length (m1_nodes m) - 2)) x)) \/
+  (exists k, k + 1 < length (m1_nodes m) /\ (nth k (m1_nodes m) 0 + snapR <= x)%R /\ (x <= nth (k + 1) (m1_nodes m) 0 - snapR)%R /\
+             @interp1 AR snapR m x = Ok (cellv m k x)).
+Proof. intros m x. exact (MeshInterp2.interp_total m snapR x snapR_pos). Qed.
+Check interp_total : forall (m : mesh1 AR R) (x : R),
+  wf1 m -> spaced snapR (m1_nodes m) -> 2 <= length (m1_nodes m) ->
+  ((x + snapR <= nth 0 (m1_nodes m) 0)%R /\ @interp1 AR snapR m x = Ok (repeat 0%R (m1_nvars m))) \/
+  ((nth (length (m1_nodes m) - 1) (m1_nodes m) 0 + snapR <= x)%R /\ @interp1 AR snapR m x = Ok (repeat 0%R (m1_nvars m))) \/
+  (exists k, k < length (m1_nodes m) /\ (Rabs (x - nth k (m1_nodes m) 0) < snapR)%R /\
+             @interp1 AR snapR m x = Ok (cellv m (Nat.min k (length (m1_nodes m) - 2)) x)) \/
+  (exists k, k + 1 < length (m1_nodes m) /\ (nth k (m1_nodes m) 0 + snapR <= x)%R /\ (x <= nth (k + 1) (m1_nodes m) 0 - snapR)%R /\
+             @interp1 AR snapR m x = Ok (cellv m k x)).
+Print Assumptions interp_total.
+Print Assumptions ex_m2_wf. (* closed; separator for the driver's parser *)
+Example interp_total_nonvacuous : wf1 ex_imesh /\ spaced snapR (m1_nodes ex_imesh) /\ 2 <= length (m1_nodes ex_imesh).
+Proof. destruct MeshInterp.interp_at_node_nonvacuous as (Hs & Hwf & Hn & Hsp & Hk & _). auto. Qed.
+
+(* ------------------------------------------------------------------ more quadrature / storage / reader *)
+
+Theorem square_trapezium2_cells : forall (m : mesh2 AR R) var (quarter : R),
+  wf2 m -> var < m2_nvars m -> 1 <= m2_nx m -> 1 <= m2_ny m ->
+  @square_trapezium2 AR quarter m var =
+  Ok (sumR (m2_nx m - 1) (fun i => sumR (m2_ny m - 1) (fun j =>
+        (quarter * (nodex2 m (i + 1) - nodex2 m i) * (nodey2 m (j + 1) - nodey2 m j) *
+         (val2 m var i j * val2 m var i j + val2 m var (i + 1) j * val2 m var (i + 1) j +
+          val2 m var i (j + 1) * val2 m var i (j + 1) + val2 m var (i + 1) (j + 1) * val2 m var (i + 1) (j + 1)))%R))).
+Proof. intros m var quarter. exact (MeshQuad2.square_trapezium2_cells m var quarter). Qed.
+Check square_trapezium2_cells : forall (m : mesh2 AR R) var (quarter : R),
+  wf2 m -> var < m2_nvars m -> 1 <= m2_nx m -> 1 <= m2_ny m ->
+  @square_trapezium2 AR quarter m var =
+  Ok (sumR (m2_nx m - 1) (fun i => sumR (m2_ny m - 1) (fun j =>
+        (quarter * (nodex2 m (i + 1) - nodex2 m i) * (nodey2 m (j + 1) - nodey2 m j) *
+         (val2 m var i j * val2 m var i j + val2 m var (i + 1) j * val2 m var (i + 1) j +
+          val2 m var i (j + 1) * val2 m var i (j + 1) + val2 m var (i + 1) (j + 1) * val2 m var (i + 1) (j + 1)))%R))).
+Print Assumptions square_trapezium2_cells.
+Print Assumptions ex_m2_wf. (* closed; separator for the driver's parser *)
+Example square_trapezium2_cells_nonvacuous : wf2 ex_mesh2 /\ 0 < m2_nvars ex_mesh2 /\ 1 <= m2_nx ex_mesh2 /\ 1 <= m2_ny ex_mesh2.
+Proof. exact trapezium2_cells_nonvacuous. Qed.
+
+Theorem idx_bijection : forall nx ny,
+  (forall i j, i < nx -> j < ny -> i * ny + j < nx * ny) /\
+  (forall i j i' j', j < ny -> j' < ny -> i * ny + j = i' * ny + j' -> i = i' /\ j = j') /\
+  (forall k, k < nx * ny -> exists i j, i < nx /\ j < ny /\ k = i * ny + j).
+Proof. exact MeshIO2.idx_bijection. Qed.
+Check idx_bijection : forall nx ny,
+  (forall i j, i < nx -> j < ny -> i * ny + j < nx * ny) /\
+  (forall i j i' j', j < ny -> j' < ny -> i * ny + j = i' * ny + j' -> i = i' /\ j = j') /\
+  (forall k, k < nx * ny -> exists i j, i < nx /\ j < ny /\ k = i * ny + j).
+Print Assumptions idx_bijection.
+
+Theorem mesh2_every_slot_is_a_node : forall (A : Arith) (X : Type) (m : mesh2 A X),
+  wf2 m -> forall k, k < length (m2_vars m) ->
+  exists i j, i < m2_nx m /\ j < m2_ny m /\ index2 m i j = rd (m2_vars m) k.
+Proof. intros A X m. exact (MeshIO2.mesh2_every_slot_is_a_node m). Qed.
+Check mesh2_every_slot_is_a_node : forall (A : Arith) (X : Type) (m : mesh2 A X),
+  wf2 m -> forall k, k < length (m2_vars m) ->
+  exists i j, i < m2_nx m /\ j < m2_ny m /\ index2 m i j = rd (m2_vars m) k.
+Print Assumptions mesh2_every_slot_is_a_node.
+Example mesh2_every_slot_is_a_node_nonvacuous : wf2 ex_m2 /\ 5 < length (m2_vars ex_m2).
+Proof. split; [exact ex_m2_wf|]. cbn. auto. Qed.
+
+Theorem read1_tokens_spec : forall (A : Arith) (tok : Type) (parse : tok -> res A) (m0 : mesh1 A A) (toks : list tok) (n : nat) (val : nat -> A),
+  length toks = n * (m1_nvars m0 + 1) ->
+  (forall i, i < length toks -> exists t, nth_error toks i = Some t /\ parse t = Ok (val i)) ->
+  Forall (fun r => length r = m1_nvars m0) (m1_vars m0) ->
+  read1 tok parse m0 toks =
+  Ok (mkM1 (m1_nvars m0) (map (fun k => val (k * (m1_nvars m0 + 1))) (seq 0 n))
+           (map (fun k => map (fun v => val (k * (m1_nvars m0 + 1) + S v)) (seq 0 (m1_nvars m0))) (seq 0 n))).
+Proof. intros A tok parse m0 toks n val. exact (MeshIO2.read1_tokens_spec tok parse m0 toks n val). Qed.
+Check read1_tokens_spec : forall (A : Arith) (tok : Type) (parse : tok -> res A) (m0 : mesh1 A A) (toks : list tok) (n : nat) (val : nat -> A),
+  length toks = n * (m1_nvars m0 + 1) ->
+  (forall i, i < length toks -> exists t, nth_error toks i = Some t /\ parse t = Ok (val i)) ->
+  Forall (fun r => length r = m1_nvars m0) (m1_vars m0) ->
+  read1 tok parse m0 toks =
+  Ok (mkM1 (m1_nvars m0) (map (fun k => val (k * (m1_nvars m0 + 1))) (seq 0 n))
+           (map (fun k => map (fun v => val (k * (m1_nvars m0 + 1) + S v)) (seq 0 (m1_nvars m0))) (seq 0 n))).
+Print Assumptions read1_tokens_spec.
+Example read1_tokens_spec_nonvacuous :
+  let toks := [q 0 1; q 1 1; q 2 1; q 1 2; q 3 1; q 4 1] in
+  length toks = 2 * (m1_nvars ex_io0 + 1) /\
+  (forall i, i < length toks -> exists t, nth_error toks i = Some t /\ (fun t => @Ok AQ t) t = Ok (nth i toks (q 0 1))) /\
+  Forall (fun r => length r = m1_nvars ex_io0) (m1_vars ex_io0).
+Proof.
+  cbv zeta. split; [reflexivity|]. split.
+  - intros i Hi. destruct (nth_error [q 0 1; q 1 1; q 2 1; q 1 2; q 3 1; q 4 1] i) as [t|] eqn:E.
+    + exists t. split; [reflexivity|]. f_equal. symmetry. now apply nth_error_nth.
+    + apply nth_error_None in E. exfalso. apply (Nat.lt_irrefl i). eapply Nat.lt_le_trans; eauto.
+  - repeat constructor.
+Qed.
+
+Theorem read1_bad_token : forall (A : Arith) (tok : Type) (parse : tok -> res A) (m0 : mesh1 A A) (toks : list tok) i t k,
+  nth_error toks i = Some t -> parse t = Panic k -> exists k', read1 tok parse m0 toks = Panic k'.
+Proof. intros A tok parse m0 toks i t k. exact (MeshIO2.read1_bad_token tok parse m0 toks i t k). Qed.
+Check read1_bad_token : forall (A : Arith) (tok : Type) (parse : tok -> res A) (m0 : mesh1 A A) (toks : list tok) i t k,
+  nth_error toks i = Some t -> parse t = Panic k -> exists k', read1 tok parse m0 toks = Panic k'.
+Print Assumptions read1_bad_token.
+Example read1_bad_token_nonvacuous :
+  nth_error [true; false; true] 1 = Some false /\ (fun b : bool => if b then @Ok AQ (q 1 1) else Panic Unwrap) false = Panic Unwrap.
+Proof. split; reflexivity. Qed.
+
